@@ -39,13 +39,21 @@ FUNS = [
     ("fri", "fri = (x, i, ...r) => [x, i, r]", "any"),      # rest after two required: index must be passed
     ("fr1", "fr1 = (...r) => r", "any"),
     ("fxo", "fxo = (x, i?, j?) => [x, i, j]", "any"),
+    # callbacks that tell apart elements which `==` identifies (0 and -0): a form that reuses the result
+    # for "equal" neighbours, or visits equal elements once, differs from the other form (round 4, seed C13-8)
+    ("to_string", None, "any"), ("finv", "finv = x => 1 / x", "num"), ("fpos", "fpos = x => 1 / x > 0", "bool"),
+    ("fti", "fti = (x, i) => [to_string(x), i]", "any"),
 ]
 # which functions take (item, index): declared from their parameter lists / arities, independently of the code
-TAKES_INDEX = {"f1": False, "f2": True, "fo": True, "fr": True, "fc": False, "fact": False, "fb": False, "fb2": True,
+TAKES_INDEX = {"to_string": False, "finv": False, "fti": True, "f1": False, "f2": True, "fo": True, "fr": True, "fc": False, "fact": False, "fb": False, "fb2": True,
                "fri": True, "fr1": True, "fxo": True, "abs": False, "floor": False, "typeof": False, "sqrt": False,
                "ugt": True}
 LISTS = ["[]", "[1]", "[3, 1, 2]", "[0, 1, 2, 3, 4, 5, 6, 7, 8, 9]", "[4, 4, 0.5, -2]", "[1, \"a\", null]",
-         "[true, false]", "[[1], [2, 3]]"]
+         "[true, false]", "[[1], [2, 3]]",
+         # neighbours that are == but distinguishable, and repeated elements
+         "[0, -0]", "[-0, 0, 0, -0, 5]", "[2, 2, 2]", "[[0], [-0]]",
+         # lengths where a chunked / parallel / pre-sized implementation of one form would switch strategy
+         "range(17)", "range(33)", "range(65)", "[...range(63), -0, 0, 0.5]", "range(130)"]
 SCALARS = ["5", "\"s\"", "null", "[1, 2]", "{a: 1}"]
 
 
@@ -64,6 +72,36 @@ def pair_programs():
             out.append(("where=filter", defs, "%s where %s" % (l, f), "filter(%s, %s)" % (l, f)))
         for s in SCALARS + LISTS[:3]:
             out.append(("into=apply", defs, "%s into %s" % (s, f), "%s(%s)" % (f, s)))
+    return out
+
+
+def composed_programs():
+    """the operand of a form is itself a form (written inline, parenthesised, or through a binding): the
+    composition must equal the composition of the built-ins — a fused or specialised evaluation of
+    `xs where p via f` must still hand `f` the index in the FILTERED list (round 4, seed C13-7)"""
+    out = []
+    defs = ("f1 = x => x * 2 + 1\nf2 = (x, i) => x * 10 + i\nfri = (x, i, ...r) => [x, i, r]\nfb = x => x > 2\n"
+            "fb2 = (x, i) => i < 2\nfodd = x => x % 2 == 1\nfti = (x, i) => [to_string(x), i]\n")
+    maps = ["f1", "f2", "fri", "fti", "to_string", "(x => x - 1)", "((x, i) => i)"]
+    preds = ["fb", "fb2", "fodd", "(x => x != 3)", "((x, i) => i != 1)"]
+    for l in ("[3, 1, 4, 1, 5, 9, 2, 6]", "[5, 0, 7]", "[]", "[0, -0, 3]"):
+        for f in maps:
+            for p in preds:
+                out.append(("where-via=map-filter", defs, "%s where %s via %s" % (l, p, f), "map(filter(%s, %s), %s)" % (l, p, f)))
+                out.append(("(where)-via=map-filter", defs, "(%s where %s) via %s" % (l, p, f), "map(filter(%s, %s), %s)" % (l, p, f)))
+                out.append(("bound-where-via=map-filter", defs, "do {\n  t9 = %s where %s\n  return t9 via %s\n}" % (l, p, f),
+                            "map(filter(%s, %s), %s)" % (l, p, f)))
+                out.append(("via-where=filter-map", defs, "%s via %s where %s" % (l, f, p) if f in ("f1", "f2") else "(%s via f1) where %s" % (l, p),
+                            "filter(map(%s, %s), %s)" % (l, f if f in ("f1", "f2") else "f1", p)))
+                out.append(("map(where)=map-filter", defs, "map(%s where %s, %s)" % (l, p, f), "map(filter(%s, %s), %s)" % (l, p, f)))
+                out.append(("filter-via=map-filter", defs, "filter(%s, %s) via %s" % (l, p, f), "map(filter(%s, %s), %s)" % (l, p, f)))
+            for g in maps[:4]:
+                out.append(("via-via=map-map", defs, "%s via %s via %s" % (l, f, g), "map(map(%s, %s), %s)" % (l, f, g)))
+            out.append(("via-into=apply-map", defs, "%s via %s into len" % (l, f), "len(map(%s, %s))" % (l, f)))
+        for p in preds:
+            for q in preds[:3]:
+                out.append(("where-where=filter-filter", defs, "%s where %s where %s" % (l, p, q), "filter(filter(%s, %s), %s)" % (l, p, q)))
+            out.append(("where-into=apply-filter", defs, "%s where %s into len" % (l, p), "len(filter(%s, %s))" % (l, p)))
     return out
 
 
@@ -133,7 +171,7 @@ def main(argv):
 
     c.proof_step(res, PID, extra_targets=["EvalInst.vo"])
 
-    pairs = pair_programs() + definitional_programs()
+    pairs = pair_programs() + definitional_programs() + composed_programs()
     # near the depth limit the forms are known to differ (F23): recursion THROUGH the form
     depth_pairs = []
     for n in (100, 300, 330, 340, 400, 900):
